@@ -129,6 +129,7 @@ fn answer(line: &str, cap: usize) -> String {
             let toks: Vec<&str> = line.split(' ').filter(|s| !s.is_empty()).collect();
             catch_unwind(AssertUnwindSafe(|| kzg::answer(&toks))).unwrap_or_else(|_| "panic".to_string())
         }
+        "prove" => catch_unwind(AssertUnwindSafe(|| emit::prove_line(line))).unwrap_or_else(|_| "panic".to_string()),
         "verify" | "vroundtrip" | "proofdec" => {
             let toks: Vec<&str> = line.split(' ').filter(|s| !s.is_empty()).collect();
             catch_unwind(AssertUnwindSafe(|| match toks[0] {
